@@ -620,7 +620,7 @@ package appencryption
 //@   requires forall k string :: cdom(c.keys)[k] ==> wfCK(cval(c.keys)[k].key)
 //@   requires meta.Created != 0 ==> loaderExact(loader)
 //@   ensures [C05:reflects-loaded-key] err == nil ==> result != nil && result.CryptoKey.created == ret(loader, 1, 0).created && (result.CryptoKey.revoked == 1) == old(ret(loader, 1, 0).revoked == 1)
-//@   ensures [C05:entry-stamped-with-reload-time] err == nil ==> (forall id string, cr int64 :: id == meta.ID && cr == result.CryptoKey.created ==> cdom(c.keys)[ck(id, cr)] && cval(c.keys)[ck(id, cr)].key == result && cval(c.keys)[ck(id, cr)].loadedAt >= old(now()) && cval(c.keys)[ck(id, cr)].loadedAt <= now())
+//@   ensures [C05,C20:entry-stamped-with-reload-time] err == nil ==> (forall id string, cr int64 :: id == meta.ID && cr == result.CryptoKey.created ==> cdom(c.keys)[ck(id, cr)] && cval(c.keys)[ck(id, cr)].key == result && cval(c.keys)[ck(id, cr)].loadedAt >= old(now()) && cval(c.keys)[ck(id, cr)].loadedAt <= now())
 //@   ensures [C05:latest-alias-follows] err == nil && meta.Created == 0 ==> ck(meta.ID, 0) in c.latest && c.latest[ck(meta.ID, 0)].Created == result.CryptoKey.created && c.latest[ck(meta.ID, 0)].ID == meta.ID
 
 // =====================================================================================================
